@@ -285,6 +285,23 @@ class FnTranslator:
             if a[1] == 'B' and b[1] == 'B' and isinstance(op, (ast.Eq, ast.NotEq)):
                 t = '(Bool.eqb %s %s)' % (a[0], b[0])
                 return (t if isinstance(op, ast.Eq) else '(negb %s)' % t, 'B')
+            if (a[1] in ('OQ', 'OZ') or b[1] in ('OQ', 'OZ')) and a[1] in ('OQ', 'OZ', 'Q', 'Z') and b[1] in ('OQ', 'OZ', 'Q', 'Z') \
+                    and isinstance(op, (ast.Eq, ast.NotEq, ast.Lt, ast.LtE, ast.Gt, ast.GtE)):
+                # [loop ties C14] a comparison with a missing number (NaN) is False, except `!=`, which is True
+                binds, inner = [], []
+                for v in (a, b):
+                    if v[1] in ('OQ', 'OZ'):
+                        nm = self.new('o')
+                        binds.append((v[0], nm))
+                        inner.append((nm, 'Q' if v[1] == 'OQ' else 'Z'))
+                    else:
+                        inner.append(v)
+                cmpn = ast.Compare(left=ast.Name(id='cmp_l__', ctx=ast.Load()), ops=[op], comparators=[ast.Name(id='cmp_r__', ctx=ast.Load())])
+                term = self.expr(cmpn, {'cmp_l__': inner[0], 'cmp_r__': inner[1]})[0]
+                miss = 'true' if isinstance(op, ast.NotEq) else 'false'
+                for src, nm in reversed(binds):
+                    term = '(match %s with Some %s => %s | None => %s end)' % (src, nm, term, miss)
+                return (term, 'B')
             x, y, ty = self.num2(a, b)
             if ty == 'Z':
                 tbl = {ast.Lt: '(Z.ltb %s %s)', ast.LtE: '(Z.leb %s %s)', ast.Eq: '(Z.eqb %s %s)',
@@ -335,6 +352,8 @@ class FnTranslator:
         if isinstance(n, ast.IfExp):
             c = self.cond(n.test, env)
             a, b = self.expr(n.body, env), self.expr(n.orelse, env)
+            if getattr(n, '_elem_store', False) and b[1] == 'B' and a[1] == 'Z':
+                a = (self.truthy(a), 'B')          # [loop ties C07/C14] an int stored into a boolean array: nonzero is True
             a, b, ty = self.unify(a, b)
             return ('(if %s then %s else %s)' % (c, a, b), ty)
         if isinstance(n, ast.Call):
@@ -441,6 +460,29 @@ class FnTranslator:
             vals = [self.coerce(self.expr(x, env), t) for x, t in zip(elts, tys)]
             item = '(' + ', '.join(vals) + ')' if len(vals) > 1 else vals[0]
             return ('(%s ++ [%s])' % (env['yield__'][0], item), 'Y')
+        if n.keywords and isinstance(f, ast.Attribute) and f.attr in ('ones', 'zeros') and isinstance(f.value, ast.Name) \
+                and f.value.id in ('np', 'numpy') and getattr(self, 'element', None) and len(n.args) == 1 \
+                and [k.arg for k in n.keywords] == ['dtype'] and ast.unparse(n.keywords[0].value) in ('np.bool_', 'bool', 'numpy.bool_'):
+            # [loop ties C07] np.ones(n, dtype=np.bool_) / np.zeros(...) read for one element of the declared array length
+            if ast.unparse(n.args[0]) != self.element['length']:
+                raise Refuse('%s: %s is not an array of the declared element length %s' % (self.rel, ast.unparse(n), self.element['length']))
+            return ('true' if f.attr == 'ones' else 'false', 'B')
+        if n.keywords and isinstance(f, ast.Attribute) and f.attr == 'clip' and not n.args \
+                and all(k.arg in ('lower', 'upper') for k in n.keywords) and len({k.arg for k in n.keywords}) == len(n.keywords):
+            # [loop ties C07] x.clip(lower=a) = max(x, a) ; x.clip(upper=b) = min(x, b) ; both = clip(x, a, b)  (numbers)
+            v = self.expr(f.value, env)
+            kw = {k.arg: self.expr(k.value, env) for k in n.keywords}
+            if v[1] not in ('Z', 'Q') or any(x[1] not in ('Z', 'Q') for x in kw.values()):
+                raise Refuse('%s: .clip(lower=/upper=) on types %s' % (self.rel, [v[1]] + [x[1] for x in kw.values()]))
+            if len(kw) == 2:
+                return self.clip(v, kw['lower'], kw['upper'])
+            which, bnd = next(iter(kw.items()))
+            x, y, ty = self.num2(v, bnd)
+            if ty == 'Z':
+                return ('(Z.%s %s %s)' % ('max' if which == 'lower' else 'min', x, y), 'Z')
+            if which == 'lower':          # numpy maximum(x, lo)
+                return ('(if Qle_bool %s %s then %s else %s)' % (y, x, x, y), 'Q')
+            return ('(if Qle_bool %s %s then %s else %s)' % (x, y, x, y), 'Q')
         if n.keywords:
             if isinstance(f, ast.Name) and f.id in self.specs and all(k.arg for k in n.keywords):
                 # keyword arguments to a function translated in the same module: placed by parameter name
@@ -559,6 +601,8 @@ class FnTranslator:
             args = [self.expr(a, env) for a in n.args]
             if f.id == 'len' and len(args) == 1 and args[0][1] in ('LZ', 'LS'):
                 return ('(Z.of_nat (length %s))' % args[0][0], 'Z')          # [loop ties C06] len of a list value
+            if f.id == 'len' and len(args) == 1 and args[0][1] == 'S':
+                return ('(Z.of_nat (String.length %s))' % args[0][0], 'Z')   # [loop ties C12] len of a string (ASCII: chars = bytes)
             if f.id == 'abs' and len(args) == 1:
                 if args[0][1] == 'Z':
                     return ('(Z.abs %s)' % args[0][0], 'Z')
@@ -750,6 +794,12 @@ class FnTranslator:
                 if isinstance(sl, ast.Constant) and isinstance(sl.value, str):
                     out.append(ast.Assign(targets=[tgt], value=val))          # tbl['col'] = e : variable tbl['col']
                     continue
+                if isinstance(sl, ast.Slice) and getattr(self, 'element', None):
+                    # [loop ties C07/C14] arr[:e] (op)= v / arr[e:] (op)= v / arr[a:b] (op)= v (also through .iloc) read for
+                    # the ONE element at position `index` of an array of length `length` (spec key `element`): a masked store
+                    # whose mask is "the element's position lies in the slice", with Python's meaning of negative bounds
+                    out.append(self.element_slice_store(s, tgt, sl, val))
+                    continue
                 if isinstance(sl, ast.Tuple) and len(sl.elts) == 2 and isinstance(sl.elts[1], ast.Constant) \
                         and isinstance(sl.elts[1].value, str):
                     base = tgt.value.value if isinstance(tgt.value, ast.Attribute) and tgt.value.attr == 'loc' else tgt.value
@@ -777,6 +827,33 @@ class FnTranslator:
     @staticmethod
     def as_load(n):
         return ast.parse(ast.unparse(n), mode='eval').body
+
+    def element_slice_store(self, s, tgt, sl, val):
+        """[loop ties C07/C14] `x[a:b] = v` for the element at position i (0 <= i < n) of the length-n array x:
+        x = (v if lo(a) <= i < hi(b) else x), where a bound e >= 0 stands for itself and e < 0 for n + e (exactly Python's
+        slice on 0 <= i < n: the clamping of out-of-range bounds to [0, n] does not change the truth value for such i).
+        A step is refused.  `x.iloc[a:b]` is the positional slice of the Series x itself."""
+        if sl.step is not None:
+            raise Refuse('%s: slice store with a step' % self.rel)
+        idx, n = self.element['index'], self.element['length']
+        base = tgt.value.value if isinstance(tgt.value, ast.Attribute) and tgt.value.attr == 'iloc' else tgt.value
+        if not isinstance(base, ast.Name):
+            raise Refuse('%s: slice store into %s (only a named array)' % (self.rel, ast.unparse(tgt.value)))
+        def bound(e):
+            t = ast.unparse(e)
+            return '((%s) if (%s) >= 0 else (%s) + (%s))' % (t, t, n, t)
+        parts = []
+        if sl.lower is not None:
+            parts.append('(%s) >= %s' % (idx, bound(sl.lower)))
+        if sl.upper is not None:
+            parts.append('(%s) < %s' % (idx, bound(sl.upper)))
+        mask = ast.parse(' and '.join(parts) if parts else 'True', mode='eval').body
+        col = self.as_load(base)
+        if isinstance(s, ast.AugAssign):
+            val = ast.BinOp(left=self.as_load(base), op=s.op, right=s.value)
+        ife = ast.IfExp(test=mask, body=val, orelse=col)
+        ife._elem_store = True
+        return ast.Assign(targets=[ast.Name(id=base.id, ctx=ast.Store())], value=ife)
 
     def target_key(self, t):
         if isinstance(t, ast.Name):
@@ -1056,6 +1133,11 @@ class FnTranslator:
             return t.id
         if isinstance(t, ast.Subscript) and not isinstance(t.slice, (ast.Tuple, ast.Slice)):
             return ast.unparse(t)
+        if isinstance(t, ast.Attribute) and isinstance(t.value, ast.Name) and t.value.id in getattr(self, 'attr_store_ok', ()):
+            # [loop ties C07] `a.b = e`: the variable named `a.b` (later reads of a.b see e).  Only for the names the spec
+            # lists in `attr_stores`, and only when `a` is never aliased by a plain `x = a` / `a = x` in the function
+            # (checked in function()): another name for the same object would not see the store in this reading
+            return ast.unparse(t)
         return None
 
     def branch_values(self, stmts, env, names):
@@ -1222,6 +1304,14 @@ class FnTranslator:
             env[k] = (term, t)
         self.guards = []
         self.yield_record = sp.get('yield_record')
+        self.element = sp.get('element')             # [loop ties C07/C14] dict(index=<param key>, length=<param key>)
+        self.attr_store_ok = tuple(sp.get('attr_stores', ()))
+        for nm in self.attr_store_ok:
+            for x in ast.walk(fnode):
+                if isinstance(x, ast.Assign) and isinstance(x.value, ast.Name) and (
+                        x.value.id == nm or any(isinstance(t, ast.Name) and t.id == nm for t in x.targets)):
+                    raise Refuse('%s.%s: %s is aliased by `%s`; attribute stores into it are not translated'
+                                 % (self.rel, sp['name'], nm, ast.unparse(x)))
         if sp.get('yields') and not sp.get('loop'):
             # [loop ties C06] `yields` on a fragment: the values the fragment's statements yield, in order, are the
             # variable `yield__` (type Y, a list of tuples of the declared types), to be named in `returns`
